@@ -46,7 +46,7 @@ func HDeltaComplete() {
 	m := kb * b
 	basis := nd_bytes(m)
 	target := nd_bytes(n)
-	d := setupDelta(basis, target, b, 16)
+	d := setupDelta(basis, target, b, vparam("s2"))
 	err := d.st.SendFiles(d.fl)
 	vassert(err == nil, "SendFiles returned an error")
 	if err != nil {
